@@ -1907,3 +1907,71 @@ func ruleLimitAfterDecompress(r *Run) {
 		r.info("(*streamGRPC).RecvMsg/wire-length-refusal", fn.Pos(), "RecvMsg does not refuse on the wire length")
 	}
 }
+
+func init() {
+	register(&Rule{Name: "DISPATCH-PREFIX-ORDER", Floor: 1,
+		Doc: "Mux.ServeHTTP picks the protocol by content-type prefix; where one tested prefix is itself a prefix of another (\"application/grpc\" of \"application/grpc-web\"), the branch of the shorter one is reached only after the longer one was tested and failed - otherwise the more specific protocol is shadowed (gRPC-Web over HTTP/2 was handed to the gRPC server and refused with 415)",
+		Run: ruleDispatchPrefixOrder})
+}
+
+func ruleDispatchPrefixOrder(r *Run) {
+	p := r.P
+	fn := p.Method("Mux", "ServeHTTP")
+	if fn == nil {
+		r.missing("method (*Mux).ServeHTTP")
+		return
+	}
+	type test struct {
+		call *ssa.Call
+		lit  string
+		subj ssa.Value
+	}
+	var tests []test
+	eachInstr(fn, func(in ssa.Instruction) {
+		c, ok := in.(*ssa.Call)
+		if !ok || calleeName(c) != "strings.HasPrefix" {
+			return
+		}
+		if lit, ok := constString(c.Call.Args[1]); ok {
+			tests = append(tests, test{c, lit, c.Call.Args[0]})
+		}
+	})
+	n := 0
+	for _, short := range tests {
+		for _, long := range tests {
+			if short.call == long.call || len(long.lit) <= len(short.lit) || !strings.HasPrefix(long.lit, short.lit) {
+				continue
+			}
+			sameSubject := p.sameExpr(short.subj, long.subj, 0) || p.sameValue(short.subj, long.subj)
+			if !sameSubject {
+				// two reads of the same request header
+				a, okA := short.subj.(*ssa.Call)
+				b, okB := long.subj.(*ssa.Call)
+				if okA && okB && calleeName(a) == "(net/http.Header).Get" && calleeName(b) == "(net/http.Header).Get" {
+					ka, _ := constString(a.Call.Args[1])
+					kb, _ := constString(b.Call.Args[1])
+					sameSubject = ka != "" && strings.EqualFold(ka, kb)
+				}
+			}
+			if !sameSubject {
+				continue
+			}
+			n++
+			key := fmt.Sprintf("(*Mux).ServeHTTP/prefix-order:%s<%s", short.lit, long.lit)
+			ordered := false
+			for _, g := range guardsOf(short.call.Block()) {
+				if g.Cond == ssa.Value(long.call) && !g.True {
+					ordered = true
+				}
+			}
+			if ordered {
+				r.ok(key, short.call.Pos(), "the test for %q is reached only where the test for %q failed", short.lit, long.lit)
+			} else {
+				r.bad(key, short.call.Pos(), "the content type is tested for the prefix %q on a path on which it was not yet tested for %q, which starts with the same text: requests of the more specific protocol take the branch of the other one (a gRPC-Web request over HTTP/2 is handed to the gRPC server and refused with 415)", short.lit, long.lit)
+			}
+		}
+	}
+	if n == 0 {
+		r.undecided("(*Mux).ServeHTTP/prefix-order", fn.Pos(), "no pair of nested content-type prefixes tested in ServeHTTP")
+	}
+}
